@@ -204,6 +204,9 @@ TrTraverse(name, up) ==
        ELSE OutOfDomain
 
 (* ------------------------------- C10 --------------------------------- *)
+(* Clauses named "obs.*" state more than the property text does (the format of str(), which entries a printed *)
+(* relations table lists, exception classes the statement leaves open): they are evaluated and reported as    *)
+(* observations but never fail a check.                                                                      *)
 TrLatLabels ==
     /\ IsEv("lattice.labels")
     /\ IF K.ok
@@ -223,9 +226,9 @@ TrLatLabels ==
                                    i \in DOMAIN e.properties[x] /\ e.properties[x][i] = p}) = 1)
                    /\ Clause("C10.atoms", \A x \in known : NoDup(e.atoms[x]) /\
                                    SetOfSets(e.atoms[x]) = last'.res.atoms[P(x)])
-                   /\ Clause("C10.str.objects", \A x \in 1..N : e.strobj[x] = e.objects[x])
-                   /\ Clause("C10.str.properties", \A x \in 1..N : e.strprop[x] = e.properties[x])
-                   /\ Clause("C10.str.lattice", e.latstr)
+                   /\ Clause("obs.C10.str.objects", \A x \in 1..N : e.strobj[x] = e.objects[x])
+                   /\ Clause("obs.C10.str.properties", \A x \in 1..N : e.strprop[x] = e.properties[x])
+                   /\ Clause("obs.C10.str.lattice", e.latstr)
                    /\ Clause("C10.extent.union", \A x \in 1..N :
                                    X[x] = UNION {ToSet(e.objects[y]) : y \in {y \in 1..N : X[y] \subseteq X[x]}})
                    /\ Clause("C10.intent.union", \A x \in 1..N :
@@ -244,7 +247,7 @@ TrRelationsStr ==
     /\ IF K.ok
        THEN /\ PrintRelations(e.unary, e.excl)
             /\ Clause("C16.print.defined", e.out = "ok")
-            /\ Clause("C16.print.rows", e.out # "ok" \/ e.rows = last'.res)
+            /\ Clause("obs.C16.print.rows", e.out # "ok" \/ e.rows = last'.res)
        ELSE OutOfDomain
 
 (* ------------------------------- C18 --------------------------------- *)
